@@ -297,6 +297,10 @@ func TestVerifC15(t *testing.T) {
 		"the order in which the jobs of one batch run is left to the Go runtime, the oracle does not depend on it")
 
 	N := int64(vlib.Pick(r, 12, 40))
+	if _, replaying := r.Replaying(); replaying { // replays run in the quick tier: search the thorough space for the recorded id
+		N = 40
+	}
+
 	r.Set("count_max", N)
 	r.Set("batchlimit_max", N+1)
 	r.Set("from_heights", []int64{0, 5})
@@ -336,6 +340,10 @@ func TestVerifC15(t *testing.T) {
 // of the range present (the property's observation point).
 func c15Real(t *testing.T, r *vlib.Run) {
 	R := int64(vlib.Pick(r, 3, 6))
+	if _, replaying := r.Replaying(); replaying {
+		R = 6
+	}
+
 	r.Set("real_importer_count_max", R)
 
 	mine := false
